@@ -94,6 +94,7 @@ typedef std::vector<unsigned char> Bytes;
 static FILE* out = stdout;
 static std::map<long, std::vector<CK_ULONG> > results;   // op number -> handles it returned
 static long opNo = 0;
+static std::map<long, Bytes> blobs;   // op number -> bytes a wrap call returned (for `unwrap ... blob:@k[,mutation]`)
 static CK_ULONG maxHandleSeen = 0;
 static std::string gOpsFile, gSelf;       // for `reexec`
 extern size_t gPos;
@@ -558,22 +559,45 @@ static void run(const std::vector<std::string>& t) {
 	else if (op == "wrap") {     // wrap h mech wrappingKey key outbuf
 		CK_ULONG h = H(1), wk = H(3), k = H(4); Mech M; if (!parseMech(t[2], M)) { fprintf(out, "= BADOP\n"); return; } OutBuf ob(t[5]);
 		CK_RV rv = C_WrapKey(h, &M.m, wk, k, ob.ptr(), &ob.len);
+		if (rv == CKR_OK && !ob.null && ob.len <= ob.cap) blobs[opNo] = Bytes(ob.b.begin(), ob.b.begin() + ob.len);
 		fprintf(out, "= %lu %lu %lu %lu%s\n", rv, h, wk, k, ob.report(rv).c_str());
 	}
 	else if (op == "unwrap") {   // unwrap h mech unwrappingKey wrappedhex tpl...
-		CK_ULONG h = H(1), uk = H(3); Mech M; Tpl tp; bool dn; Bytes d = dataArg(t[4], &dn);
+		CK_ULONG h = H(1), uk = H(3); Mech M; Tpl tp; bool dn = false; Bytes d;
+		if (t[4].rfind("blob:@", 0) == 0) {
+			// the output of an earlier wrap call, optionally damaged: blob:@k[,trunc=N][,drop=N][,flip=I][,append=HEX]
+			std::vector<std::string> a = splitArgs(t[4].substr(6)); d = blobs[atol(a[0].c_str())];
+			for (size_t i = 1; i < a.size(); i++) {
+				size_t eq = a[i].find('='); std::string k2 = a[i].substr(0, eq), v2 = eq == std::string::npos ? "" : a[i].substr(eq + 1);
+				if (k2 == "trunc") d.resize(std::min(d.size(), (size_t)atol(v2.c_str())));
+				else if (k2 == "drop" && d.size() >= (size_t)atol(v2.c_str())) d.resize(d.size() - atol(v2.c_str()));
+				else if (k2 == "flip" && !d.empty()) d[atol(v2.c_str()) % d.size()] ^= 0x01;
+				else if (k2 == "append") { Bytes x; unhex(v2, x); d.insert(d.end(), x.begin(), x.end()); }
+			}
+		} else d = dataArg(t[4], &dn);
 		if (!parseMech(t[2], M) || !parseTplTokens(t, 5, tp)) { fprintf(out, "= BADOP\n"); return; }
 		CK_OBJECT_HANDLE hk = 0; CK_ATTRIBUTE dummyA;
 		CK_RV rv = C_UnwrapKey(h, &M.m, uk, dn ? NULL_PTR : (d.empty() ? (CK_BYTE_PTR)"" : d.data()), d.size(), tp.a.empty() ? &dummyA : tp.a.data(), tp.a.size(), &hk);
 		if (rv == CKR_OK) { res.push_back(hk); note(hk); }
-		fprintf(out, "= %lu %lu %lu %lu\n", rv, h, uk, rv == CKR_OK ? hk : 0UL);
+		fprintf(out, "= %lu %lu %lu %lu %s\n", rv, h, uk, rv == CKR_OK ? hk : 0UL, dn ? "-" : (d.empty() ? "." : hex(d).c_str()));
 	}
 	else if (op == "derive") {   // derive h mech baseKey tpl...
 		CK_ULONG h = H(1), bk = H(3); Mech M; Tpl tp; if (!parseMech(t[2], M) || !parseTplTokens(t, 4, tp)) { fprintf(out, "= BADOP\n"); return; }
 		CK_OBJECT_HANDLE hk = 0; CK_ATTRIBUTE dummyA;
 		CK_RV rv = C_DeriveKey(h, &M.m, bk, tp.a.empty() ? &dummyA : tp.a.data(), tp.a.size(), &hk);
 		if (rv == CKR_OK) { res.push_back(hk); note(hk); }
-		fprintf(out, "= %lu %lu %lu %lu\n", rv, h, bk, rv == CKR_OK ? hk : 0UL);
+		// the second key of CKM_CONCATENATE_BASE_AND_KEY is named by reference in the op line: echo its handle value
+		if (M.m.mechanism == CKM_CONCATENATE_BASE_AND_KEY) fprintf(out, "= %lu %lu %lu %lu %lu\n", rv, h, bk, rv == CKR_OK ? hk : 0UL, (unsigned long)M.obj);
+		else fprintf(out, "= %lu %lu %lu %lu\n", rv, h, bk, rv == CKR_OK ? hk : 0UL);
+	}
+	else if (op == "kcv") {     // kcv h obj : key type, value and check value of a secret key, read through the API (C13: the check value is the standard one)
+		CK_ULONG h = H(1), o = H(2); CK_ULONG kt = (CK_ULONG)-1; unsigned char val[8192], cv[64];
+		CK_ATTRIBUTE a1[] = { { CKA_KEY_TYPE, &kt, sizeof(kt) } }; CK_RV rv = C_GetAttributeValue(h, o, a1, 1);
+		CK_ATTRIBUTE a2[] = { { CKA_VALUE, val, sizeof(val) } }; CK_RV rv2 = rv == CKR_OK ? C_GetAttributeValue(h, o, a2, 1) : rv;
+		CK_ATTRIBUTE a3[] = { { CKA_CHECK_VALUE, cv, sizeof(cv) } }; CK_RV rv3 = rv == CKR_OK ? C_GetAttributeValue(h, o, a3, 1) : rv;
+		fprintf(out, "= %lu %lu %lu %lx %s %s\n", rv, h, o, kt,
+			(rv2 == CKR_OK && a2[0].ulValueLen != (CK_ULONG)-1) ? (a2[0].ulValueLen ? hex(val, a2[0].ulValueLen).c_str() : ".") : "-",
+			(rv3 == CKR_OK && a3[0].ulValueLen != (CK_ULONG)-1) ? (a3[0].ulValueLen ? hex(cv, a3[0].ulValueLen).c_str() : ".") : "-");
 	}
 	else if (op == "random") { CK_ULONG h = H(1); CK_ULONG n = N(2); Bytes b(n + 8, 0xA5); CK_RV rv = C_GenerateRandom(h, b.data(), n); fprintf(out, "= %lu %lu %lu\n", rv, h, n); }
 	else if (op == "seed") { CK_ULONG h = H(1); bool dn; Bytes d = dataArg(t[2], &dn); fprintf(out, "= %lu %lu\n", C_SeedRandom(h, d.empty() ? (CK_BYTE_PTR)"" : d.data(), d.size()), h); }
